@@ -428,7 +428,7 @@ fn feasible(cap: usize, w: &[usize], r: &[usize]) -> bool {
 
 fn c03_scenarios(thorough: bool) -> Vec<Scenario> {
     let mut v = Vec::new();
-    let ns: &[usize] = if thorough { &[3, 4, 5] } else { &[3] };
+    let ns: &[usize] = if thorough { &[3, 4] } else { &[3] };
     let caps: &[usize] = if thorough { &[1, 2, 4] } else { &[1, 2] };
     for &cap in caps {
         for &n in ns {
